@@ -272,7 +272,10 @@ func (k *checker) framed(q request, base outcome, framing string) {
 		out = e.sendMem(fq)
 	}
 	c.JournalDone()
-	c.Eval(1)
+	ownVerdict := q.Form == "near-empty" || q.Form == "malformed"
+	if !ownVerdict {
+		c.Eval(1) // judge counts the others
+	}
 	srv := e.W.Server
 	form := formClass(q.Form)
 	emptiness := "body"
@@ -290,6 +293,13 @@ func (k *checker) framed(q request, base outcome, framing string) {
 	if base.panicked {
 		return
 	}
+	if ownVerdict {
+		// The statement leaves a near-empty body open (4xx or allprop) and
+		// demands 4xx of a malformed one: each framed answer is judged on its
+		// own, not against the plain one.
+		k.judge(fq, out)
+		return
+	}
 	if a, b := answerSig(base), answerSig(out); a != b {
 		what := fmt.Sprintf("the answer depends on the body framing: plain framing -> %d, framing %s -> %d", base.Status, framing, out.Status)
 		if base.Status == out.Status {
@@ -304,7 +314,7 @@ func (k *checker) framed(q request, base outcome, framing string) {
 // holds no document (the ones section 9.1 is about) get every in-process
 // framing and two wire framings; the others one now and then.
 func (k *checker) framings(r *rand.Rand, q request, base outcome) {
-	sensitive := q.Body == "" || q.Form == "near-empty"
+	sensitive := q.Body == "" || q.Form == "near-empty" || (q.Form == "malformed" && len(q.Body) <= 3)
 	if sensitive {
 		for _, f := range memFramings {
 			k.framed(q, base, f)
